@@ -60,7 +60,8 @@ fn process_crtr_block<H: Host>(_: &mut Emulator<H>, block_data: &[u8]) {
         return;
     }
     let crtr_name_bytes = &block_data[0..33];
-    let _ = from_utf8(crtr_name_bytes).unwrap();
+    // Name is not required to be a valid string
+    let _ = from_utf8(crtr_name_bytes);
     let _ = u16::from_le_bytes([block_data[33], block_data[34]]);
     let _ = u16::from_le_bytes([block_data[35], block_data[36]]);
 }
@@ -435,7 +436,8 @@ where
             block_header[2],
             block_header[3],
         ];
-        let id_str = from_utf8(id_bytes).unwrap().to_uppercase();
+        // Id which is not a valid string can't match any known block, so it is skipped
+        let id_str = from_utf8(id_bytes).unwrap_or_default().to_uppercase();
         cursor_pos += ZXST_BLOCK_HEADER_SIZE;
 
         // ZXST Block Data
